@@ -8,8 +8,8 @@ import (
 
 func main() {
 	mon.Main(mon.Spec{
-		Prop: "C04",
-		Rule: "case = the C03 program runs (generated RV64IMA programs on the emulator assembled like cmd/mltwist) observed through an instrumented state provider; loads cover [known|unknown|known] byte runs because image bytes, pre-written bytes, stored bytes and supplied bytes interleave in a 64-byte window; non-trivial = run with >=1 provider request and a load partially overlapping an earlier store, distinct by listing",
+		Prop:        "C04",
+		Rule:        "case = the C03 program runs (generated RV64IMA programs on the emulator assembled like cmd/mltwist) observed through an instrumented state provider; loads cover [known|unknown|known] byte runs because image bytes, pre-written bytes, stored bytes and supplied bytes interleave in a 64-byte window; non-trivial = run with >=1 provider request and a load partially overlapping an earlier store, distinct by listing",
 		Explanation: "oracle: shadow knowledge sets (registers and bytes that are in the image, pre-populated, written by the reference machine, or already supplied); every provider request for a known register or a range containing a known byte is a violation; a register/byte supplied by the provider and not overwritten must keep reading as the supplied value (compared with the reference machine whose initial state is the provider function)",
 		Assumptions: []string{"refrv reference interpreter decides what each instruction writes", "provider = deterministic hash of (key,address)"},
 		Cases: func(t string) int {
